@@ -116,6 +116,7 @@ type W struct {
 	recoverFns map[*ssa.Function]bool
 	orderFirst []string
 	prologue bool
+	curLabel string
 	hasPrologue bool
 }
 
@@ -210,6 +211,7 @@ type opSpec struct {
 	write     bool
 	syncCell  bool
 	traced    bool
+	label     string
 	spawn     *[]spawnTake
 	accCells  []string
 	accNames  []string
